@@ -412,10 +412,10 @@ func (c *DefaultCtx) SetContext(ctx context.Context) {
 // Cookie sets a cookie by passing a cookie struct.
 func (c *DefaultCtx) Cookie(cookie *Cookie) {
 	fcookie := fasthttp.AcquireCookie()
-	fcookie.SetKey(cookie.Name)
-	fcookie.SetValue(cookie.Value)
-	fcookie.SetPath(cookie.Path)
-	fcookie.SetDomain(cookie.Domain)
+	fcookie.SetKey(removeNewLines(cookie.Name))
+	fcookie.SetValue(removeNewLines(cookie.Value))
+	fcookie.SetPath(removeNewLines(cookie.Path))
+	fcookie.SetDomain(removeNewLines(cookie.Domain))
 	// only set max age and expiry when SessionOnly is false
 	// i.e. cookie supposed to last beyond browser session
 	// refer: https://developer.mozilla.org/en-US/docs/Web/HTTP/Cookies#define_the_lifetime_of_a_cookie
@@ -880,7 +880,7 @@ func (c *DefaultCtx) JSON(data any, ctype ...string) error {
 	}
 	c.fasthttp.Response.SetBodyRaw(raw)
 	if len(ctype) > 0 {
-		c.fasthttp.Response.Header.SetContentType(ctype[0])
+		c.fasthttp.Response.Header.SetContentType(removeNewLines(ctype[0]))
 	} else {
 		c.fasthttp.Response.Header.SetContentType(MIMEApplicationJSON)
 	}
@@ -898,7 +898,7 @@ func (c *DefaultCtx) CBOR(data any, ctype ...string) error {
 	}
 	c.fasthttp.Response.SetBodyRaw(raw)
 	if len(ctype) > 0 {
-		c.fasthttp.Response.Header.SetContentType(ctype[0])
+		c.fasthttp.Response.Header.SetContentType(removeNewLines(ctype[0]))
 	} else {
 		c.fasthttp.Response.Header.SetContentType(MIMEApplicationCBOR)
 	}
@@ -1740,7 +1740,16 @@ func (c *DefaultCtx) Set(key, val string) {
 }
 
 func (c *DefaultCtx) setCanonical(key, val string) {
-	c.fasthttp.Response.Header.SetCanonical(utils.UnsafeBytes(key), utils.UnsafeBytes(val))
+	c.fasthttp.Response.Header.SetCanonical(utils.UnsafeBytes(key), utils.UnsafeBytes(removeNewLines(val)))
+}
+
+// removeNewLines replaces CR and LF by spaces like fasthttp's Header.Set does:
+// a value handed to a response helper must not end the header line.
+func removeNewLines(s string) string {
+	if strings.IndexByte(s, '\r') == -1 && strings.IndexByte(s, '\n') == -1 {
+		return s
+	}
+	return strings.NewReplacer("\r", " ", "\n", " ").Replace(s)
 }
 
 // Subdomains returns a string slice of subdomains in the domain name of the request.
@@ -1814,7 +1823,7 @@ func (c *DefaultCtx) String() string {
 // Type sets the Content-Type HTTP header to the MIME type specified by the file extension.
 func (c *DefaultCtx) Type(extension string, charset ...string) Ctx {
 	if len(charset) > 0 {
-		c.fasthttp.Response.Header.SetContentType(utils.GetMIME(extension) + "; charset=" + charset[0])
+		c.fasthttp.Response.Header.SetContentType(utils.GetMIME(extension) + "; charset=" + removeNewLines(charset[0]))
 	} else {
 		c.fasthttp.Response.Header.SetContentType(utils.GetMIME(extension))
 	}
